@@ -250,6 +250,7 @@ static void execOp(const Group& T, const Op& o) {
         case 10: CHECK_C_LOCATION(1, "1", NULLPTR, file, line); break;
         case 11: CHECK_EQUAL_C_INT_LOCATION(5, 5, NULLPTR, file, line); break;
         case 12: CHECK_EQUAL_C_STRING_LOCATION("s", "s", NULLPTR, file, line); break;
+        case 14: MEMCMP_EQUAL_LOCATION(blobA, blobB, 0, NULLPTR, file, line); break;      // a comparison of zero bytes passes and is a check like any other
         default: UNSIGNED_LONGS_EQUAL_LOCATION(9, 9, NULLPTR, file, line); break;
         }
         break;
